@@ -24,6 +24,8 @@ EXPLAIN = ("R-REG flow-mod command handlers; R-ORDER/R-DOM rejection-before-muta
            "necessary conditions on all paths, not equivalence with the spec table over histories.")
 FT = 'openflow.flow_table'
 
+LOFM = 'openflow.libopenflow_01'
+
 def run (ctx):
   ctx.explanation = EXPLAIN
   ctx.assumptions = ["handler tables built by naming convention (shape re-checked)", "assert statements execute"]
@@ -270,6 +272,29 @@ def run (ctx):
       good = 'match.matches_with_wildcards(self.match)' in txt
       ctx.ob('R-AGREE', imb, "non-strict matching: the given match subsumes the entry's", good, txt if good else "non-strict branch returns `%s` (direction or call changed)" % txt, (ftmod, r), 'D3')
 
+  # subsumption is reflexive: a non-strict command carrying the very match an entry was installed with affects that entry.  The
+  # field-wise comparison decides IP prefixes with IPAddr.inNetwork, which compares the masked candidate with the *unmasked*
+  # network address - so a prefix written with host bits set (10.1.2.3/24) is not in "itself"; the equality shortcut at the top
+  # of matches_with_wildcards is what makes identical matches subsume each other
+  mww = repo.cls(LOFM, 'ofp_match').methods.get('matches_with_wildcards') if repo.has_func(LOFM + ':ofp_match.matches_with_wildcards') else None
+  if mww is None: raise AnalysisError("ofp_match.matches_with_wildcards vanished")
+  ctx.analysed(mww); gm_ = q.cfg_of(mww)
+  netcalls = gm_.nodes_with_call(lambda c: call_name(c) in ('inNetwork', 'in_network'))
+  other_ = mww.params[1] if len(mww.params) > 1 else 'other'
+  short = [n_ for n_ in gm_.nodes if n_.kind == 'return' and isinstance(n_.ast.value, ast.Constant) and n_.ast.value.value is True
+           and any(f_ in ('self == %s' % other_, '%s == self' % other_) for f_ in q.fact_strs(gm_, n_)) and n_ in gm_.reachable(gm_.entry, avoid=netcalls, exc=False)]
+  masked = False
+  try:
+    inn = repo.cls('lib.addresses', 'IPAddr').methods.get('inNetwork')
+    for r_ in q.returns_of(inn.node):
+      if isinstance(r_.value, ast.Compare) and any(isinstance(x_, ast.BinOp) and isinstance(x_.op, ast.BitAnd) for x_ in ast.walk(r_.value.comparators[0])): masked = True
+  except Exception: inn = None
+  if netcalls:
+    good = bool(short) or masked
+    ctx.ob('R-AGREE', mww, "a match subsumes an identical match (also one whose prefix has host bits set)", good,
+           "equality shortcut before the prefix comparison" if short else "inNetwork masks the network address" if masked else
+           "matches_with_wildcards no longer returns True up front for `self == %s`, and the prefix test it falls back on (IPAddr.inNetwork) compares with the unmasked network address: an entry installed with nw_src 10.1.2.3/24 is not "
+           "subsumed by the identical match - a non-strict DELETE / MODIFY / stats request / overlap check with that match misses it" % other_, mww, 'D3')
   # what is_matched_by / expiry consult must be the entry's current state, not a copy made at construction
   # the ordering every comparison of entries rests on (sorted insert, overlap check, lookup): shared with C03
   from . import c03
@@ -281,6 +306,14 @@ def run (ctx):
             "(out_port matching, statistics) keep answering for the entry's old %s after a MODIFY" % (X, P, f_.qual, P, norm(st_)[:60], X, P), (m_, st_), 'D7')
   if not stale:
     ctx.ob('R-OWN', te, "no attribute of an entry is a construction-time copy of a replaceable one", True, "none", te, 'D7')
+  # the table's query helpers hand back containers: a caller that asks "did anything match?" (MODIFY acting as ADD, the
+  # statistics handlers) gets a wrong answer from a one-shot iterator, which is always true and empty after one pass
+  gm, nlazy = q.generator_misuse(repo, [ftmod, swmod])
+  for callee_, caller_, m_, node_, how_ in gm:
+    ctx.bad('R-BYTES', caller_, "the result of %s is used as a container (%s)" % (callee_.name, how_),
+            "%s returns a generator expression, and %s applies %s to it: a generator object is true even when it yields nothing and is exhausted by its first loop - "
+            "e.g. a MODIFY that matches no entry no longer acts as an ADD" % (callee_.qual, caller_.qual, how_), (m_, node_), 'D3')
+  if not gm: ctx.ok('R-BYTES', ft, "query results tested for emptiness / measured / re-iterated are containers", "%d lazily returning helper(s), none misused" % nlazy, ft, 'D3')
   # ---- D4 notification -----------------------------------------------------
   removal_routines = []
   for name in ('remove_entry', '_remove_specific_entries'):
